@@ -132,6 +132,8 @@ def mkpow(a, b):
         return ('powi', a, n)
     if isnum(b) and b[1] == Fraction(1, 2):
         return ('fn', 'sqrt', a)
+    if isnum(a) and a[1] == -1:
+        return ('fn', 'altsign', b)            # (-1)**k for an integer-valued k (loop index arithmetic)
     return ('rpow', a, b)
 
 
@@ -1141,7 +1143,8 @@ def eval_expr(e, env):
     if t == 'fn':
         f = {'sqrt': math.sqrt, 'exp': math.exp, 'ln': math.log, 'sin': math.sin, 'cos': math.cos,
              'tan': math.tan, 'atan': math.atan, 'acos': math.acos, 'asin': math.asin,
-             'sinh': math.sinh, 'cosh': math.cosh, 'tanh': math.tanh}[e[1]]
+             'sinh': math.sinh, 'cosh': math.cosh, 'tanh': math.tanh,
+             'altsign': lambda k: (-1.0) ** int(round(k))}[e[1]]
         return f(eval_expr(e[2], env))
     if t == 'abs':
         return abs(eval_expr(e[1], env))
